@@ -73,9 +73,9 @@ SITE_OF_SIG = {"literal_value_escape": "core.literal_value", "non_ascii_identifi
                "insertion_after_last_line": "core.get_charnos"}
 
 WITNESS = {
-    "F04-3": ["é = 1\nprint(é)\n"],
 }
 FIXED_WITNESS = {
+    "F04-3": ["é = 1\nprint(é)\n"],
     "F04-1": ["if 1/0:\n    print(1)\n", "if 1 + 'a':\n    print(1)\n", "if {[1]: 2}:\n    print(1)\n",
               "for i in range(int(1e308 * 10)):\n    print(i)\n", "if 1 in 2:\n    print(1)\n"],
     "F04-2": ["import sys\nprint(iter([x for x in sys.argv]))\n"],
